@@ -638,8 +638,7 @@ func (v *Visitor) visit(s *df.AnalyzerState, entrypoint *df.CallNodeArg) error {
 					}
 					stack, _ = v.addNext(s, stack, cur, nextNodeWithTrace, cur.Status, df.EdgeInfo{}, seen)
 				}
-			} else if cur.ClosureTrace != nil && cur.ClosureTrace.Label.ClosureSummary == graphNode.Graph() {
-				// only use the closure on top of the closure trace when it is a closure of this function
+			} else if cur.ClosureTrace != nil {
 				// Flow to the matching bound variables at the make closure site from the closure trace
 				bvs := cur.ClosureTrace.Label.BoundVars()
 				if len(bvs) == 0 {
